@@ -14,6 +14,26 @@ Proof. repeat split; reflexivity. Qed.
 Lemma gen_accept_counts : accept_qd = 1 /\ accept_an_max = 1 /\ accept_ns_max = 1 /\ accept_ar_max = 2.
 Proof. repeat split; reflexivity. Qed.
 
+(* the library constants the model writes out are the ones the code names *)
+Lemma gen_lib_consts :
+  min_msg_size = lib_min_msg_size /\ max_msg_size = lib_max_msg_size /\ rcode_badvers = lib_rcode_badvers
+  /\ rcode_notimp = lib_rcode_notimp /\ rcode_formerr = lib_rcode_formerr /\ lib_reject_default_rcode = rcode_formerr
+  /\ type_rrsig = lib_type_rrsig /\ code_cookie = lib_code_cookie /\ code_nsid = lib_code_nsid
+  /\ code_keepalive = lib_code_keepalive /\ lib_code_keepalive_wire = lib_code_keepalive.
+Proof. repeat split; reflexivity. Qed.
+
+(* server.acceptHeader, translated from the Go AST together with wire.Header and its accessors,
+   IS the model's accept ladder (verdict numbering: the iota order of the acceptVerdict constants) *)
+Definition verdict_code (v : verdict) : N :=
+  match v with AcceptOK => 0 | AcceptIgnore => 1 | AcceptNotImp => 2 | AcceptFormErr => 3 end.
+Lemma gen_acceptHeader h : go_acceptHeader h = verdict_code (accept_header h).
+Proof.
+  unfold go_acceptHeader, accept_header, opcode_query, opcode_notify, accept_qd, accept_an_max, accept_ns_max, accept_ar_max.
+  destruct (go_Header_QR h); [reflexivity|].
+  destruct (negb (go_Header_Opcode h =? 0)%Z && negb (go_Header_Opcode h =? 4)%Z); [reflexivity|].
+  destruct (negb (T_Header_QDCount h =? 1) || (1 <? T_Header_ANCount h) || (1 <? T_Header_NSCount h) || (2 <? T_Header_ARCount h)); reflexivity.
+Qed.
+
 (* the translated header accessors say what the model's reject header says *)
 Lemma gen_Header_Opcode h : go_Header_Opcode h = Z.of_N (flags_opcode h).
 Proof.
@@ -1208,3 +1228,59 @@ Example ex_compress :
                   [mk_rr 0 3 5 1 60 40 [SName true 2]; mk_rr 1 2 1 1 60 27 [SFix 4]] [] [] in
   msg_wf nt m = true /\ msg_ulen m = 100 /\ msg_clen nt m = 63.
 Proof. vm_compute. auto. Qed.
+
+(* ------------------------------------------------------------------ *)
+(* The premise req_opt_clean: (a) it holds for every writer of OPT
+   options the tree has, (b) it cannot be dropped.                      *)
+
+(* every statement in the non-test code that writes the options of an OPT it did not just create
+   (inventory pinned in Proofs_src.gen_opt_writers):
+     dnsutil.SetEDE                opt.Option = append(opt.Option, ede)          an EDNS0_EDE
+     cache CacheEntry.ToMsg        opt.Option = append(opt.Option, e.ede)        an EDNS0_EDE
+     resolver SetEDNSKeepalive     ... = append(..., ka)                         an EDNS0_TCP_KEEPALIVE
+     dnsutil.SetEdns0              opt.Option = append(opt.Option, forwarded)    an EDNS0_SUBNET *)
+Inductive opt_writer := W_EDE (e : eopt) | W_Keepalive (e : eopt) | W_FwdECS (e : eopt).
+Definition writer_ok (x : opt_writer) : Prop :=
+  match x with
+  | W_EDE e => e_code e = code_ede
+  | W_Keepalive e => e_code e = code_keepalive
+  | W_FwdECS e => e_code e = code_ecs
+  end.
+Definition written (x : opt_writer) : eopt := match x with W_EDE e | W_Keepalive e | W_FwdECS e => e end.
+Definition apply_writers (l : list eopt) (ws : list opt_writer) : list eopt := l ++ map written ws.
+
+Lemma writers_relayable l ws :
+  (forall e, In e l -> relayable e) -> Forall writer_ok ws -> forall e, In e (apply_writers l ws) -> relayable e.
+Proof.
+  intros Hl Hw e He. unfold apply_writers in He. apply in_app_or in He. destruct He as [He|He]; [auto|].
+  apply in_map_iff in He. destruct He as (x & <- & Hx). rewrite Forall_forall in Hw. specialize (Hw x Hx).
+  unfold relayable. destruct x; cbn in *; auto.
+Qed.
+
+(* whatever sequence of the tree's writers ran on the request's OPT after SetEdns0, the premise holds *)
+Lemma req_opt_clean_tree_l c d :
+  cfg_wf c ->
+  (forall o, find_req (m_ex d) = Some o ->
+     exists l ws, Forall writer_ok ws /\ o_opts o = apply_writers (fwd_opts c l) ws) ->
+  req_opt_clean d.
+Proof.
+  intros Hw H o Hf e He. destruct (H o Hf) as (l & ws & Hws & Eo). rewrite Eo in He.
+  eapply writers_relayable; eauto. intros x Hx. left. eapply fwd_opts_code; eauto.
+Qed.
+
+(* (b) a handler that appends a private-use option to the request's own OPT, attaches it, and
+   attaches another OPT after it: the option reaches the client (replayed on the Go code by the
+   drivers' script mode 4, kind "-reqoptjunk") *)
+Definition wit_d_junk : msg :=
+  mk_msg (mk_hdr 7 true 0 false false true true false false false 0) [mk_quest 0 1 1 17] [mk_rr 0 0 1 1 300 27 []] []
+         [XReq (mk_opt 0 1232 true 0 [mk_eopt 65001 2 49158]); XO (mk_opt 0 4096 false 0 [])].
+Lemma req_opt_clean_necessary_l :
+  exists tr c q d clen r,
+    serve_msg tr c q false (Some d) clen = Some r /\ cfg_wf c /\ dn_echo q d /\ client_ver q = 0
+    /\ ~ req_opt_clean d /\ options_own tr c (client_opt q) r = false.
+Proof.
+  exists TCP, wit_c, wit_q, wit_d_junk, 0. eexists. split; [vm_compute; reflexivity|].
+  split; [exact wit_c_wf|]. split; [repeat split|]. split; [reflexivity|]. split; [|reflexivity].
+  intros H. specialize (H _ eq_refl (mk_eopt 65001 2 49158) (or_introl eq_refl)).
+  destruct H as [H|[H|H]]; discriminate H.
+Qed.
